@@ -92,6 +92,7 @@ def run_tlc(
         "java",
         "-XX:+UseParallelGC",
         f"-Xmx{heap}",
+        "-Xss64m",  # deep RECURSIVE operators on long recorded inputs (StackOverflowError otherwise)
         f"-DTLA-Library={LIB}",
     ]
     if deque:
